@@ -36,7 +36,7 @@ def pbox(x, l, u):
     return np.minimum(np.maximum(x, l), u)
 
 
-def rand_config(rng, prob, allow=("bounds", "scaling", "proj", "avg", "soft", "hard", "npt", "growing", "regression", "regu", "noise", "diag")):
+def rand_config(rng, prob, allow=("bounds", "scaling", "proj", "avg", "soft", "hard", "npt", "growing", "regression", "regu", "noise", "diag", "randinit")):
     """returns (kwargs for solve, description dict). Only options documented as supported."""
     n = prob["n"]
     x0 = prob["x0"]
@@ -131,6 +131,13 @@ def rand_config(rng, prob, allow=("bounds", "scaling", "proj", "avg", "soft", "h
         if rng.random() < 0.5:
             up["growing.num_new_dirns_each_iter"] = int(rng.integers(0, 3))
         d["growing"] = up["growing.ndirs_initial"]
+    if "randinit" in allow and rng.random() < 0.12 and not has_proj:
+        up["init.random_initial_directions"] = True
+        if rng.random() < 0.5:
+            up["init.random_directions_make_orthogonal"] = False
+        if "parallel" in allow and rng.random() < 0.3:
+            up["init.run_in_parallel"] = True
+        d["randinit"] = True
     if "regression" in allow and npt > n + 1 and rng.random() < 0.4:
         up["regression.num_extra_steps"] = int(rng.integers(1, 3))
         if rng.random() < 0.3:
